@@ -531,9 +531,12 @@ pub fn polygon_event(rng: &mut Rng, depth: u8, exact: bool, centre: (f64, f64), 
     use cdshealpix::sph_geom::Polygon;
     let poly = guarded(|| Polygon::new(vs.iter().map(|(l, b)| LonLat { lon: *l, lat: *b }).collect::<Vec<_>>().into_boxed_slice()));
     if let Some(poly) = poly {
-      for k in 0..60 {
-        let p = match k % 3 { 0 => offset_point(centre.0, centre.1, radius * rng.range(0.0, 1.6), rng.range(0.0, TWO_PI)),
+      for k in 0..80 {
+        let p = match k % 4 { 0 => offset_point(centre.0, centre.1, radius * rng.range(0.0, 1.6), rng.range(0.0, TWO_PI)),
                               1 => { let v = vs[rng.below(vs.len() as u64) as usize]; offset_point(v.0, v.1, radius * 0.05 * rng.f64(), rng.range(0.0, TWO_PI)) }
+                              // bit for bit on the meridian (or the parallel) of a vertex: the degenerate case of a ray cast along a meridian
+                              2 => { let v = vs[rng.below(vs.len() as u64) as usize];
+                                     if rng.below(4) != 0 { (v.0, (v.1 + radius * rng.range(-1.6, 1.6)).max(-1.5).min(1.5)) } else { ((v.0 + radius * rng.range(-1.6, 1.6)).rem_euclid(TWO_PI), v.1) } }
                               _ => (rng.range(0.0, TWO_PI), rng.range(-1.0, 1.0f64).asin()) };
         if let Some(exp) = inside_convex(vs, centre, p, 1e-9) {
           contains_n += 1;
@@ -573,6 +576,29 @@ pub fn polygon_event(rng: &mut Rng, depth: u8, exact: bool, centre: (f64, f64), 
   Some(ev)
 }
 
+/// azimuth (from the north, towards the east) of the great circle from point 1 to point 2, at point 1
+fn bearing(lon1: f64, lat1: f64, lon2: f64, lat2: f64) -> f64 {
+  let dl = lon2 - lon1;
+  (dl.sin() * lat2.cos()).atan2(lat1.cos() * lat2.sin() - lat1.sin() * lat2.cos() * dl.cos())
+}
+/// a point with exact special coordinates, far enough from the poles for a polygon of the given radius
+fn special_sphere_point(rng: &mut Rng, radius: f64) -> (f64, f64) {
+  let lim = HALF_PI - 2.0 * radius - 0.12;
+  let p = match rng.below(4) {
+    0 => { let g = rng.range(-1.0, 1.0); (HALF_PI * rng.below(4) as f64, *rng.pick(&[0.0, 0.7297276562269663, -0.7297276562269663, g])) }
+    1 => (HALF_PI * 0.5 * rng.below(8) as f64, if rng.bool() { 0.0 } else { rng.range(-1.0, 1.0) }),
+    k => {
+      let depth = rng.below(30) as u8;
+      let n = 1u64 << depth;
+      let c = if rng.bool() { crate::sc_nested::special_cells(rng, depth) } else { Cell { b: rng.below(12) as u8, i: rng.below(n) as u32, j: rng.below(n) as u32 } };
+      let layer = nested::get_or_create(depth);
+      let h = hash_of_cell(depth, c);
+      if k == 2 { layer.vertices(h)[rng.below(4) as usize] } else { layer.center(h) }
+    }
+  };
+  (p.0, p.1.max(-lim).min(lim))
+}
+
 pub fn record_c12(rng: &mut Rng, count: u64, out: &mut Out) {
   while out.n < count {
     // centre anywhere short of the poles, incl. lon = 0 crossing and base-cell seams
@@ -603,10 +629,73 @@ pub fn record_c12(rng: &mut Rng, count: u64, out: &mut Out) {
       let pos = if rng.bool() { vs.len() } else { rng.below(vs.len() as u64 + 1) as usize };
       vs.insert(pos, apex);
     }
-    let convex = convex && !kite;
-    let class = if kite { "kite" } else { class };
-    let depth = gen_depth(rng, radius).min(29);
-    let exact = rng.bool();
+    let mut convex = convex && !kite;
+    let mut class = if kite { "kite" } else { class };
+    let (mut lon, mut lat) = (lon, lat);
+    // class "special-vertex": a regular polygon one vertex of which is BIT FOR BIT a special point of the sphere: on a meridian
+    // k pi/4 (lon = 0.0 included: the polygon then straddles lon = 0), on the equator or the transition latitude, a vertex or the
+    // centre of a HEALPix cell. class "meridian-kite": a diamond across such a meridian with two vertices exactly on it.
+    match rng.below(8) {
+      0 | 1 if radius < 0.7 => {
+        let p = special_sphere_point(rng, radius);
+        let az0 = rng.range(0.0, TWO_PI);
+        let c = offset_point(p.0, p.1, radius, az0);
+        let beta = bearing(c.0, c.1, p.0, p.1);
+        let sgn = if rng.bool() { 1.0 } else { -1.0 };
+        vs = (0..nv).map(|k| if k == 0 { p } else { offset_point(c.0, c.1, radius, beta + sgn * TWO_PI * k as f64 / nv as f64) }).collect();
+        let rot = rng.below(nv as u64) as usize;
+        vs.rotate_left(rot);
+        lon = c.0.rem_euclid(TWO_PI); lat = c.1; convex = true; class = "special-vertex";
+      }
+      2 if radius < 0.7 => {
+        let l0 = HALF_PI * 0.5 * rng.below(8) as f64;
+        let (g1, g2) = (rng.range(-1.0, 1.0), rng.range(-1.0, 1.0));
+        let phi = *rng.pick(&[0.0, 0.7297276562269663, -0.7297276562269663, g1, g2]);
+        let phi = phi.max(-(HALF_PI - radius - 0.12)).min(HALF_PI - radius - 0.12);
+        let (r1, r2, dl) = (radius * rng.range(0.3, 1.0), radius * rng.range(0.3, 1.0), radius * rng.range(0.2, 0.9) / phi.cos());
+        vs = vec![(l0, phi + r1), ((l0 + dl).rem_euclid(TWO_PI), phi + radius * rng.range(-0.1, 0.1)), (l0, phi - r2), ((l0 - dl).rem_euclid(TWO_PI), phi + radius * rng.range(-0.1, 0.1))];
+        if rng.bool() { vs.reverse(); }
+        let rot = rng.below(4) as usize;
+        vs.rotate_left(rot);
+        lon = l0; lat = phi; convex = radius < 0.3; class = "meridian-kite";
+      }
+      // class "slope1": a triangle one edge of which is, in the HEALPix projection plane, tangent to the direction of the cell
+      // edges (slope +-1 reached along the edge): the "special points" that distinguish the exact mode from the approximate
+      // one. The edge starts half of the time from one of the 4 points (k pi/2, 0), whose unit vector has exact zeros
+      // (degenerate branches of the intersection routines). Equatorial region: slope = (3 pi / 8) cos^2(lat) / tan(azimuth).
+      3 if radius < 0.5 => {
+        let a = if rng.bool() { (HALF_PI * rng.below(4) as f64, 0.0) } else { let p = special_sphere_point(rng, radius); (p.0, p.1.max(-0.6).min(0.6)) };
+        let t = 3.0 * PI / 8.0 * a.1.cos().powi(2) / (1.0 + rng.range(-0.12, 0.12));
+        let alpha = t.atan() * (if rng.bool() { 1.0 } else { -1.0 }) + if rng.bool() { PI } else { 0.0 };
+        let len = radius * rng.range(0.5, 1.5);
+        let b = offset_point(a.0, a.1, len, alpha);
+        // a thin triangle (few cells even at depths where the cells are much smaller than the edge)
+        let c3 = offset_point(a.0, a.1, len * rng.range(0.3, 1.0), alpha + rng.range(0.05, 0.5) * if rng.bool() { 1.0 } else { -1.0 });
+        vs = vec![a, (b.0.rem_euclid(TWO_PI), b.1), (c3.0.rem_euclid(TWO_PI), c3.1)];
+        if rng.bool() { vs.reverse(); }
+        let rot = rng.below(3) as usize;
+        vs.rotate_left(rot);
+        // reference interior point: the mean direction of the three vertices
+        let sum = vs.iter().map(|v| vec3(v.0, v.1)).fold([0.0; 3], |acc, v| [acc[0] + v[0], acc[1] + v[1], acc[2] + v[2]]);
+        let m = lonlat_of_vec(sum);
+        lon = m.0.rem_euclid(TWO_PI); lat = m.1; convex = true; class = "slope1";
+      }
+      _ => {}
+    }
+    // a polygon coverage is hierarchical (full cells at coarser depths): up to two depths deeper than for a cone of the same size
+    // (results above the traced size are skipped)
+    let mut depth = (gen_depth(rng, radius) + rng.below(3) as u8).min(29);
+    let mut exact = rng.bool();
+    if class == "slope1" {
+      // cells 6 to 24 times smaller than the polygon; mostly the exact mode (the special points only matter there)
+      let size = vs.iter().map(|v| ang_dist(vs[0].0, vs[0].1, v.0, v.1)).fold(0.0, f64::max);
+      let mut d = 0u8;
+      while d < 29 && cell_size(d) > size / 6.0 { d += 1; }
+      depth = (d + rng.below(3) as u8).min(29);
+      exact = rng.below(4) != 0;
+    }
+    // the reference cone of the tightness clause must contain the polygon: measured for the constructed classes
+    let radius = if class == "meridian-kite" || class == "special-vertex" || class == "slope1" { vs.iter().map(|v| ang_dist(lon, lat, v.0, v.1)).fold(radius, f64::max) * (1.0 + 1e-9) } else { radius };
     if let Some(ev) = polygon_event(rng, depth, exact, (lon, lat), radius, &vs, convex, class) { out.emit(ev); }
   }
 }
